@@ -122,6 +122,8 @@ package bam
 //@   decoder
 //@   requires br.h != nil && br.r != nil
 //@   requires br.c != nil ==> (0 <= br.c.End.File && br.c.End.File < 140737488355328)
+//@   ensures[C11] @wholerecord (result1 == nil && br.omit < 2) ==> (result0 != nil && result0.Seq.Length >= 0 &&
+//@       len(result0.Seq.Seq) == div(result0.Seq.Length + 1, 2) && len(result0.Qual) == result0.Seq.Length)
 //@ func vOffset
 //@   inline
 
